@@ -18,12 +18,13 @@ const (
 	vxKindAgg
 	vxKindTemporalPos
 	vxKindTemporalNeg
+	vxKindTemporalAgg // aggregating rule whose body mentions the predicate inside a temporal literal
 )
 
 // VxC03Stratify: M rule slots "head_i :- body_i" with symbolic predicates and a kind per slot.
 func VxC03Stratify() {
 	m := vxParam("M", 3)
-	nk := vxParam("KINDS", 3) // 3: pos/neg/agg, 5: also temporal literals
+	nk := vxParam("KINDS", 3) // 3: pos/neg/agg, 5: also temporal literals, 6: also aggregation over a temporal literal
 	vxMapOrder(vxParam("ORDER", 0))
 	h := make([]int, m)
 	b := make([]int, m)
@@ -87,6 +88,9 @@ func VxC03Stratify() {
 			c.Premises = []ast.Term{ast.TemporalLiteral{Literal: body}}
 		case vxKindTemporalNeg:
 			c.Premises = []ast.Term{ast.TemporalLiteral{Literal: ast.NegAtom{Atom: body}}}
+		case vxKindTemporalAgg:
+			c.Premises = []ast.Term{ast.TemporalLiteral{Literal: body}}
+			c.Transform = &ast.Transform{Statements: []ast.TransformStmt{{Var: nil, Fn: ast.ApplyFn{Function: symbols.GroupBy}}}}
 		}
 		rules = append(rules, c)
 	}
@@ -94,7 +98,7 @@ func VxC03Stratify() {
 	vxReach("stratified")
 
 	// oracle: reachability over slots (concrete after the identity decisions)
-	neg := func(i int) bool { return kind[i] == vxKindNeg || kind[i] == vxKindAgg || kind[i] == vxKindTemporalNeg }
+	neg := func(i int) bool { return kind[i] == vxKindNeg || kind[i] == vxKindAgg || kind[i] == vxKindTemporalNeg || kind[i] == vxKindTemporalAgg }
 	// reach[x][y]: predicate x (a head id) depends on y transitively (x's rules mention ... y)
 	reach := map[[2]int]bool{}
 	for i := 0; i < m; i++ {
